@@ -446,21 +446,52 @@ func cmdCheck(args []string) {
 				}
 			}
 			seenKnown := map[string]bool{}
+			// group candidates of one class (site, region, shape): with
+			// uninterpreted functions in play any reproducing member confirms
+			// the class; a class without a reproducing member is inconclusive.
+			classOf := func(c symex.Candidate) string { return c.Site + "|" + c.Known + "|" + c.Choices }
+			classConfirmed := map[string]bool{}
+			classUF := map[string]bool{}
+			confirmedOf := make([]bool, len(cands))
+			for k, c := range cands {
+				if k >= len(couts) {
+					break
+				}
+				for _, f := range couts[k].Fails {
+					if f == c.Site {
+						confirmedOf[k] = true
+						classConfirmed[classOf(c)] = true
+					}
+				}
+				if c.UF {
+					classUF[classOf(c)] = true
+				}
+			}
+			reported := map[string]bool{}
 			for k, c := range cands {
 				if k >= len(couts) {
 					break
 				}
 				o := couts[k]
-				confirmed := false
-				for _, f := range o.Fails {
-					if f == c.Site {
-						confirmed = true
+				cls := classOf(c)
+				if !confirmedOf[k] {
+					if classConfirmed[cls] {
+						continue
 					}
-				}
-				if !confirmed {
+					if classUF[cls] {
+						if !reported[cls] {
+							reported[cls] = true
+							cr.inconclusive = append(cr.inconclusive, fmt.Sprintf("%s: %s fails only under a free interpretation of math.Pow / calendar functions; no real-world witness among the models tried (inputs e.g. %v, notes %v)", h.Name, c.Site, c.Model, c.Note))
+						}
+						continue
+					}
 					cr.internal = append(cr.internal, fmt.Sprintf("%s: counterexample for %s does not reproduce natively (engine or stub error): inputs %v notes %v native obs=%v fails=%v", h.Name, c.Site, c.Model, c.Note, o.Obs, o.Fails))
 					continue
 				}
+				if c.UF && reported[cls] {
+					continue
+				}
+				reported[cls] = true
 				if c.Known != "" {
 					key := c.Site + "|" + c.Known
 					if !seenKnown[key] {
@@ -625,11 +656,15 @@ func dedupCands(cs []symex.Candidate) []symex.Candidate {
 		}
 		sort.Strings(ks)
 		key := c.Site + "|" + c.Known + "|" + strings.Join(ks, ";") + "|" + c.Choices
-		if seen[key] >= 1 {
+		lim := 1
+		if c.UF {
+			lim = 8
+		}
+		if seen[key] >= lim {
 			continue
 		}
 		persite := c.Site + "|" + c.Known
-		if seen[persite] >= 12 {
+		if seen[persite] >= 12 && !c.UF || seen[persite] >= 48 {
 			continue
 		}
 		seen[key]++
